@@ -12,6 +12,7 @@ thread is idle) is a separate part: append it with
 merges by property id, so prefer appending here).
 """
 from specs import sched_env, n_cases
+import vlib
 
 
 def owner_ops(rng, n, nxt):
@@ -54,7 +55,44 @@ def gen_wsd(rng, tier):
             # a long-lived run queue: indices start at 2^31 or 2^32
             args.append(rng.choice([1 << 31, 1 << 32]))
         cases.append({"args": args, "env": sched_env(rng)})
+    # growth-heavy: the owner pushes 20-40 entries in a row into a 2-slot deque (four or five
+    # growth steps, 2 -> 4 -> ... -> 64) while thieves steal, then pops what is left
+    for _ in range(n_cases(tier, 60, 600)):
+        nxt = 1
+        npush = rng.randrange(18, 41)
+        ops = []
+        for _ in range(npush):
+            ops.append("p%d" % nxt)
+            nxt += 1
+            if rng.random() < 0.1:
+                ops.append("o")
+        ops += ["o"] * rng.randrange(2, 8)
+        threads = [",".join(ops)] + [",".join(["s"] * rng.randrange(3, 10)) for _ in range(rng.choice([1, 2, 2]))]
+        cases.append({"args": [1, "|".join(threads)], "env": sched_env(rng, budget=400000)})
     return cases
+
+
+def gen_wsd_scale(rng, tier):
+    """(entries, thieves, seed): the real deque through every growth step up to beyond 2^20
+    entries; exactly-once by bitmap"""
+    cfgs = [(1000, 0), ((1 << 20) + 64, 0), ((1 << 20) + 64, 2), (300000, 2), (70000, 3), ((1 << 21) + 5, 1)]
+    if tier == "thorough":
+        cfgs += [((1 << 22) + 3, 2), ((1 << 16) + 1, 3), ((1 << 15) + 1, 2), (40000, 3)] + [(rng.randrange(1000, 3000000), rng.randrange(0, 4)) for _ in range(6)]
+    return [{"args": [n, t, rng.randrange(1, 1 << 30)], "timeout": 600,
+             "env": {"VR_SEED": rng.randrange(1, 1 << 30), "VR_SCHED": "rand", "VR_SWITCH": 3, "VR_HANG": 4000000000, "VR_BUDGET": 4000000000, "VR_MAXEV": 1000000}}
+            for (n, t) in cfgs]
+
+
+def gen_rt_scale(rng, tier):
+    """(kernel threads, fibers, yields per fiber): tens of thousands of runnable fibers in one run
+    queue (queue lengths beyond 2^15 and 2^16)"""
+    cfgs = [(1, 1000, 1), (1, 40000, 1), (2, 70000, 0)]
+    if tier == "thorough":
+        cfgs += [(3, 33000, 2), (1, 66000, 1), (2, 131100, 0), (1, 32800, 3)]
+    return [{"args": [k, n, y], "timeout": 900,
+             "env": {"VR_SEED": rng.randrange(1, 1 << 30), "VR_SCHED": "rand", "VR_SWITCH": 3, "VR_MAXFIB": 300000,
+                     "VR_HANG": 50000000, "VR_BUDGET": 4000000000, "VR_MAXEV": 60000000}}
+            for (k, n, y) in cfgs]
 
 
 def post_wsd(log, case):
@@ -81,7 +119,11 @@ SPEC = {
         "extra_props": ("Tso", "TsoGrow", "QueueHist",),
         # second part: the whole runtime (model Rt, shared with C01): every schedule of a fiber
         # is consumed by exactly one switch to it; nothing is queued when all threads are idle
-        "parts": [{"name": "wsd", "harness": "wsd", "model": "Wsd", "gen": gen_wsd, "post": post_wsd}, _rt_part()],
+        "parts": [{"name": "wsd", "harness": "wsd", "model": "Wsd", "gen": gen_wsd, "post": post_wsd}, _rt_part(),
+                  # scale (oracle-only parts): the real deque up to millions of entries, the real
+                  # scheduler with tens of thousands of runnable fibers in one run queue
+                  {"name": "wsd-scale", "harness": "wsdscale", "model": None, "gen": gen_wsd_scale, "post": vlib.oracle_note},
+                  {"name": "rt-scale", "harness": "rtscale", "model": None, "runtime": True, "gen": gen_rt_scale, "post": vlib.oracle_note}],
         "trusted_base": [
             "runtime half: run queues as bags at the deque API (rqpush/rqpop/rqsteal call-site events) in model Rt; "
             "idle = the runtime's tick note (every kernel thread polled and found nothing for several rounds)",
